@@ -27,7 +27,8 @@ def main():
     ap.add_argument("--needs", default=None); ap.add_argument("--seed", default="0")
     a = ap.parse_args()
     d = os.path.abspath(a.dir)
-    wt = "/tmp/seedval_%d" % os.getpid()
+    wt = "/tmp/seed_%s" % a.prop  # the path the seeding agent used (some demos assert it)
+    sh(["git", "-C", "/repo", "worktree", "remove", "--force", wt]); shutil.rmtree(wt, ignore_errors=True)
     meta_path = os.path.join(d, "meta.json")
     meta = json.load(open(meta_path)) if os.path.exists(meta_path) else {}
     meta.update({"property": a.prop})
